@@ -16,6 +16,21 @@ def main():
     a = ap.parse_args()
     tier = a.tier if a.tier in ("quick", "thorough") else "quick"
     prop = a.prop.upper()
+    replay_key = None
+    if a.replay:
+        # A replay file records property, tier, seed and the mechanism key with its witnesses.  Workloads are a
+        # deterministic function of (tier, seed), so the case is re-created by re-running the check with the
+        # recorded tier and seed; the outcome is reported for the recorded key only.
+        import json
+
+        with open(a.replay) as f:
+            rp = json.load(f)
+        tier = rp.get("tier", tier)
+        os.environ["VERIF_SEED"] = str(rp.get("seed", 0))
+        replay_key = rp.get("key")
+        print("replaying %s: tier=%s seed=%s key=%s" % (a.replay, tier, rp.get("seed"), replay_key))
+        for w in rp.get("witnesses", [])[:2]:
+            print("  recorded witness: %s" % json.dumps(w.get("detail"), default=str)[:600])
     mod = importlib.import_module("vf.props." + prop.lower())
     t0 = time.time()
     scratch = K.Scratch(prop)
@@ -32,6 +47,19 @@ def main():
     finally:
         if not os.environ.get("VERIF_KEEP_SCRATCH"):
             scratch.cleanup()
+    if replay_key is not None:
+        import glob
+        import json
+
+        again = False
+        for f in glob.glob(os.path.join(K.VERIF, "replays", "%s-%s-*.json" % (prop, tier))):
+            try:
+                if json.load(open(f)).get("key") == replay_key:
+                    again = True
+            except Exception:
+                pass
+        print("REPLAY %s key=%s" % ("reproduced" if again else "did not reproduce", replay_key))
+        sys.exit(1 if again else 0)
     sys.exit(status)
 
 
